@@ -87,6 +87,33 @@ func init() {
 	for _, id := range []string{"C01", "C02", "C03", "C04", "C05", "C06", "C07", "C27"} {
 		txCheck(id, []HSpec{send}, []HSpec{sendP})
 	}
+	registry["C09"] = &Check{ID: "C09", Assumptions: append([]string{
+		"app-DB layer: the key-value store under AppDB is a correct durable map (KVModel); rlp and tmjson as field boxes",
+		"emission > 0 (a zero emission is stored as an empty value, which the reader cannot tell from an absent one; genesis emission is positive on every deployed chain)",
+		"block heights and block times are concrete in this harness (their fixed-width encodings are not the subject)",
+		"the app-DB block of Blockchain.Commit is mirrored by the harness as SetLastBlockHash, SetLastHeight, FlushValidators, SaveBlocksTime, SaveVersions, SaveEmission, SavePrice",
+	}, commonAssumptions...), Harnesses: []HSpec{
+		{Pkg: "coreV2/appdb", Func: "VerifHarness_C09_AppDB", Tier: "quick", Configs: []map[string]int64{
+			cfg("restart", 0), cfg("restart", 1), cfg("restart", 1, "newPrice", 1), cfg("restart", 0, "newVersion", 1, "newValidators", 1), cfg("restart", 1, "newVersion", 1, "newValidators", 1),
+		}, Bounds: "genesis block + one block, with or without a restart in between; emission, price reserves, last reward: unbounded integers"},
+	}}
+	c20 := func(fn string, tier string, vals ...int) HSpec {
+		var cs []map[string]int64
+		for _, v := range vals {
+			cs = append(cs, cfg("validators", v))
+		}
+		return HSpec{Pkg: "coreV2/minter", Func: fn, Tier: tier, Configs: cs, Bounds: "validators as configured, every stake an unbounded positive integer, every vote pattern; big.Float as exact reals (the float64 constant 2./3. is exact; the 64-bit rounding of the quotient is outside this harness and covered by native replay of each counterexample)"}
+	}
+	registry["C20"] = &Check{ID: "C20", Assumptions: append([]string{
+		"all validators are recorded present in the block (presence is handled by calculatePowers, which the harness runs)",
+		"math/big.Float modelled over exact reals in this harness (FloatMode real)",
+	}, commonAssumptions...), Harnesses: []HSpec{
+		c20("VerifHarness_C20_Halt", "quick", 2, 3),
+		c20("VerifHarness_C20_Commission", "quick", 2),
+		c20("VerifHarness_C20_Network", "quick", 2),
+		c20("VerifHarness_C20_Commission", "thorough", 3),
+		c20("VerifHarness_C20_Network", "thorough", 3),
+	}}
 	registry["C13"] = &Check{ID: "C13", Assumptions: append([]string{
 		"pre-state of a pool: both reserves > 0 (re-established by every harness as a post-condition), LP supply > minimum liquidity",
 		"big.Int.Sqrt by contract r*r <= x < (r+1)^2",
